@@ -75,6 +75,35 @@ pub fn thread_cpu_us() -> u64 {
     ts.tv_sec as u64 * 1_000_000 + ts.tv_nsec as u64 / 1000
 }
 
+#[repr(C)]
+struct Rusage {
+    utime: [i64; 2],
+    stime: [i64; 2],
+    rest: [i64; 14],
+}
+unsafe extern "C" {
+    fn getrusage(who: i32, ru: *mut Rusage) -> i32;
+}
+const RUSAGE_SELF: i32 = 0;
+const RUSAGE_THREAD: i32 = 1;
+
+fn user_us(who: i32) -> u64 {
+    let mut ru = Rusage { utime: [0; 2], stime: [0; 2], rest: [0; 14] };
+    unsafe { getrusage(who, &mut ru) };
+    ru.utime[0] as u64 * 1_000_000 + ru.utime[1] as u64
+}
+
+/// User-mode CPU time of the calling thread (kernel time is excluded on purpose: on an overloaded machine system
+/// calls get slow, and that says nothing about the code under test).
+pub fn thread_user_us() -> u64 {
+    user_us(RUSAGE_THREAD)
+}
+
+/// User-mode CPU time of the whole process.
+pub fn process_user_us() -> u64 {
+    user_us(RUSAGE_SELF)
+}
+
 static PANICS: Mutex<Vec<String>> = Mutex::new(Vec::new());
 static NPANICS: AtomicUsize = AtomicUsize::new(0);
 
